@@ -5,6 +5,7 @@ from __future__ import annotations
 
 import ast
 from types import SimpleNamespace
+from fractions import Fraction
 
 from ..alg import Poly, Q, MQ, is_zero
 from ..repo import AnalysisError, dotted, norm_text, FuncInfo, walk_no_nested
@@ -486,6 +487,7 @@ def run(ctx):
         "interpreted on a symbolic Kelvin vector (components, von Mises identity). NOT decided: numerical values."
     )
     dispatch_rules(ctx)
+    ctx.attempt(beam_conjugate_rule, ctx)
     extractor_rules(ctx)
     field_e_rule(ctx)
     reaction_rule(ctx)
@@ -572,3 +574,63 @@ def storage_location_rule(ctx):
         r.ok("nodal scalar (6,) on a 2-element mesh -> per-element mean")
     else:
         r.fail(f.qualname, "size-coincidence:node->element", f.file, f.lineno, "_Simu.Results_Reshape_values", f"6 nodal values on a 2-element mesh: the nodal field is taken for element data because its size is a multiple of Ne (got {out.size} values: a (2, 3) reshape of the nodal vector)")
+
+
+def beam_conjugate_rule(ctx):
+    """R16.13: the beam strain results name the generalised strains conjugate to the internal forces: the beam law is
+    diagonal (Get_D returns np.diag in every branch: force_k = D_kk strain_k), so "ux'" is the component of the strain
+    vector at the index of "N", "rx'" at the index of "Mx", "ry'" at "My", "rz'" at "Mz" -- unscaled.  Beam.Result is
+    interpreted with symbolic strain and force vectors; results that raise are R16.1's business."""
+    repo = ctx.repo
+    r = ctx.rule("R16.13", "beam strain results: Result(\"ux'\" / \"rx'\" / \"ry'\" / \"rz'\") == the strain component conjugate to N / Mx / My / Mz (same index as the force result, coefficient 1)", min_instances=8)
+    B = repo.cls(f"{SIM}._beam.Beam")
+    # premise: the law is diagonal
+    for gd in [f for f in repo.all_functions() if f.name == "Get_D" and f.module.name.startswith("EasyFEA.Models.Beam") and not any(isinstance(n, ast.Return) and isinstance(n.value, ast.Constant) for n in ast.walk(f.node))]:
+        for n in ast.walk(gd.node):
+            if isinstance(n, ast.Assign) and any(isinstance(t, ast.Name) and t.id == "D" for t in n.targets):
+                if not (isinstance(n.value, ast.Call) and (dotted(n.value.func) or "").endswith("np.diag")):
+                    raise AnalysisError("R16.13: the beam law Get_D is no longer built with np.diag: the conjugacy premise must be re-established")
+    pairs = (("ux'", "N"), ("rx'", "Mx"), ("ry'", "My"), ("rz'", "Mz"))
+    fres = repo.lookup_method(B, "Result")
+    for ci, label, dim, dof_n, extra in configs(repo):
+        if ci is not B:
+            continue
+        tim = extra["useTimoshenko"]
+        width = {(1, False): 1, (2, False): 2, (3, False): 4, (1, True): 1, (2, True): 3, (3, True): 6}[(dim, tim)]
+        eps = XArray((1, 1, width), [Poly.var(f"e{k}") for k in range(width)])
+        frc = XArray((1, 1, width), [Poly.var(f"f{k}") for k in range(width)])
+        extra = dict(extra, _Calc_Epsilon_e_pg=lambda *a, **k: eps, _Calc_InternalForces_e_pg=lambda *a, **k: frc)
+        obj = make_sim(repo, ci, dim, dof_n, extra)
+        events = []
+        I = Interp(repo)
+        I.attr_hook = attr_hook_factory(obj, repo)
+        I.call_hook = call_hook(events)
+        names = [str(n) for n in I.call_function(repo.lookup_method(ci, "Results_Available"), [], self_obj=obj)]
+
+        def one(name):
+            try:
+                v = I.call_function(fres, [name, False], self_obj=obj)
+            except (XRaise, Uninterpretable):
+                return None
+            if isinstance(v, XArray) and v.size == 1:
+                v = v.data[0]
+            return v if isinstance(v, (Poly, int, Fraction)) or hasattr(v, "vars") else None
+
+        for sname, fname in pairs:
+            if sname not in names or fname not in names:
+                continue
+            r.instance(fn=fres.qualname)
+            fv, sv = one(fname), one(sname)
+            if fv is None or sv is None:
+                r.ok(f"[{label}] {sname}: raises or is not followed (R16.1)")
+                continue
+            fv, sv = Poly.of(fv), Poly.of(sv)
+            k = [i for i in range(width) if is_zero(fv - Poly.var(f"f{i}")) or is_zero(fv + Poly.var(f"f{i}"))]
+            if len(k) != 1:
+                r.ok(f"[{label}] {fname} is not a single force component here")
+                continue
+            want = Poly.var(f"e{k[0]}")
+            if is_zero(sv - want):
+                r.ok(f"[{label}] {sname} == strain[{k[0]}] (conjugate of {fname})")
+            else:
+                r.fail(fres.qualname, f"{label}|{sname}", fres.file, fres.lineno, "Beam.Result", f"[{label}] Result(\"{sname}\") returns {sv!r} where e_k is component k of the generalised strain vector; its conjugate force {fname} is component {k[0]}, so the result must be e{k[0]}")
